@@ -51,10 +51,13 @@ static void *verif_memcpy(void *dst, void const *src, size_t n)
 static a_size M0, N0;
 static void mk(a_str *s)
 {
-    ND(a_size, m, size); ND(a_size, n, size); ND(_Bool, ok, bool);
+    ND(a_size, cap0, size); ND(a_size, len0, size); ND(_Bool, alloc_ok, bool); /* names distinct from every callee's locals (trace extraction is by name) */
+    a_size const m = cap0, n = len0; _Bool const ok = alloc_ok;
     ASSUME(m <= ARENA && n <= m);
 #ifndef VERIF_NATIVE
     __CPROVER_havoc_object(arena); __CPROVER_havoc_object(other); /* arbitrary contents (statics start zeroed) */
+#else
+    { unsigned k; for (k = 0; k < ARENA + 16; ++k) { arena[k] = (unsigned char)(k * 7 + 3); other[k] = (unsigned char)(k * 13 + 1); } } /* cbmc reports the havocked arrays only as "array": any contents with few repetitions reproduce offset and length defects */
 #endif
     M0 = m; N0 = n;
     s->ptr_ = m ? (char *)arena : (char *)A_NULL; s->mem_ = m; s->num_ = n;
